@@ -24,7 +24,7 @@ def main():
     for i, a in enumerate(sys.argv):
         if a == "--props":
             props = sys.argv[i + 1].split(",")
-    src = "/tmp/seed/%s" % pid
+    src = os.path.join(os.environ.get("SEED_DIR", "/tmp/seed"), pid)
     patch = os.path.join(src, "patch_%s.diff" % x)
     demo = os.path.join(src, "demo_%s_test.go" % x)
     meta = json.load(open(os.path.join(src, "meta_%s.json" % x)))
@@ -75,7 +75,7 @@ def main():
     res["caught_by"] = [p for p, d in detected.items() if d["exit"] == 1]
     print(json.dumps({k: v for k, v in res.items() if k != "meta"}, indent=1))
     if keep:
-        d = "/verif/seeded/%s_%s" % (pid, x)
+        d = "/verif/seeded/%s_%s%s" % (pid, x, os.environ.get("SEED_TAG", ""))
         os.makedirs(d, exist_ok=True)
         shutil.copy(patch, os.path.join(d, "patch.diff"))
         shutil.copy(demo, os.path.join(d, "demo_test.go"))
